@@ -27,8 +27,8 @@ type c19Reg struct {
 
 // behaviours: a Go function and a jq BODY with the same input/output relation
 var (
-	c19PlainBehs = []string{"all", "first", "last", "self", "cnt", "obj", "verr", "verr0", "perr"}
-	c19IterBehs  = []string{"each", "selfeach", "none", "mid", "one", "twice", "fixed"}
+	c19PlainBehs = []string{"all", "first", "last", "self", "cnt", "obj", "verr", "verr0", "perr", "pack"}
+	c19IterBehs  = []string{"each", "selfeach", "none", "mid", "one", "twice", "fixed", "lazy"}
 )
 
 type c19ValErr struct{ v any }
@@ -56,7 +56,10 @@ func (it *c19SliceIter) Next() (any, bool) {
 
 func c19GoPlain(beh string) func(any, []any) any {
 	return func(v any, args []any) any {
-		args = append([]any(nil), args...) // the interpreter reuses the slice
+		if beh == "pack" {
+			return args // the slice it was handed, as an array: a function may keep what it is given
+		}
+		args = append([]any(nil), args...)
 		switch beh {
 		case "all":
 			return append([]any{v}, args...)
@@ -89,6 +92,9 @@ func c19GoPlain(beh string) func(any, []any) any {
 
 func c19GoIter(beh string) func(any, []any) gojq.Iter {
 	return func(v any, args []any) gojq.Iter {
+		if beh == "lazy" {
+			return &c19SliceIter{xs: args} // reads the slice it was handed only when asked for the next value
+		}
 		args = append([]any(nil), args...)
 		switch beh {
 		case "each":
@@ -156,7 +162,9 @@ func c19Body(beh string, n int) string {
 		return "error(null)"
 	case "perr":
 		return "error(" + strconv.Quote(c19PlainMsg) + ")"
-	case "each":
+	case "pack":
+		return "[" + strings.Join(as, ", ") + "]"
+	case "each", "lazy":
 		if n == 0 {
 			return "empty"
 		}
